@@ -552,9 +552,9 @@ theorem IsList.prev {h l L x R} (hl : IsList h l (L ++ x :: R)) : lk h l false x
   rw [this, List.headD_eq_head?_getD, List.head?_reverse, List.getLastD_eq_getLast?]
 
 theorem getLastD_mem (L : List Nat) (q : Nat) : L.getLastD q = q ∨ L.getLastD q ∈ L := by
-  cases L using List.reverseRec with
-  | nil => exact Or.inl rfl
-  | append_singleton L a _ => right; simp
+  rcases List.eq_nil_or_concat L with e | ⟨L', a, e⟩
+  · subst e; exact Or.inl rfl
+  · subst e; right; simp
 
 /-- side facts about a neighbour `y` (0 or a member different from `x`) -/
 theorem IsList.nbr {h l xs} (hl : IsList h l xs) (y : Nat) (hy : y = 0 ∨ y ∈ xs) (n : Nat) (hn0 : n ≠ 0)
@@ -572,7 +572,7 @@ theorem insertNode_after {h l L ref R n} (hl : IsList h l (L ++ ref :: R)) (hn0 
   have hbm : R.headD 0 = 0 ∨ R.headD 0 ∈ L ++ ref :: R := by
     rcases headD_mem R 0 with e | e
     · exact Or.inl e
-    · exact Or.inr (by simp [e])
+    · exact Or.inr (List.mem_append_right _ (List.mem_cons_of_mem _ e))
   have hnb := hl.nbr _ hbm n hn0 hnx
   have hbr : R.headD 0 ≠ ref := by
     rcases headD_mem R 0 with e | e
@@ -614,5 +614,149 @@ theorem popFirst_tail {h l n R} (hl : IsList h l (n :: R)) :
   have hf := popFirst_facts h l n (R.headD 0) hl.first.symm hn.1 hn.2 hb.symm hbn hbs
   refine ⟨isList_rem_front hl ⟨Nat.le_of_eq hf.1.symm, hf.2.2.1, hf.2.2.2.1, hf.2.2.2.2.1, hf.2.2.2.2.2⟩ ?_, hf.2.1⟩
   rw [lk_true _ _ _ hn.1]; exact hb.symm
+
+
+/-- `append(n)` = `_add_node(n, 1)` of an unlinked node: textbook `xs ++ [n]` -/
+theorem addNode_append {h l xs n} (hl : IsList h l xs) (hn0 : n ≠ 0) (hns : n < h.size) (hnx : n ∉ xs)
+    (hnext : (nd h n).next = 0) : IsList (addNode h l n true).1 (addNode h l n true).2 (xs ++ [n]) := by
+  have hpm : l.last = 0 ∨ l.last ∈ xs := by rw [hl.last]; exact getLastD_mem xs 0
+  have hnb := hl.nbr _ hpm n hn0 hnx
+  have hf := addNode_facts h l n true l.last hn0 hns rfl hnb.1 hnb.2
+  have h0 : lk h l true n = 0 := by rw [lk_true _ _ _ hn0]; exact hnext
+  have F : InsFacts h l (addNode h l n true).1 (addNode h l n true).2 l.last 0 n :=
+    ⟨Nat.le_of_eq hf.1.symm, hf.2.2.2.1, by rw [hf.2.2.2.2.1]; exact h0, hf.2.1, hf.2.2.1, hf.2.2.2.2.2.1,
+      hf.2.2.2.2.2.2⟩
+  rcases List.eq_nil_or_concat xs with e | ⟨L, a, e⟩
+  · subst e
+    have hp : l.last = 0 := hl.last
+    rw [hp] at F
+    exact isList_ins_front hl F (hl.first.symm ▸ rfl) hn0 hns hnx
+  · rw [List.concat_eq_append] at e
+    subst e
+    have hp : l.last = a := by rw [hl.last]; simp
+    rw [hp] at F
+    have := isList_ins_mid (L := L) (R := []) hl F (hl.next (R := [])).symm hn0 hns hnx
+    simpa using this
+
+/-- `pop()` on a non-empty list: textbook `dropLast`, returns the last -/
+theorem pop_dropLast {h l L n} (hl : IsList h l (L ++ [n])) :
+    IsList (pop h l).1 (pop h l).2.1 L ∧ (pop h l).2.2 = n := by
+  have hn := hl.mem n (by simp)
+  have hlast : n = l.last := by rw [hl.last]; simp
+  have ha : lk h l false n = L.getLastD 0 := hl.prev (R := [])
+  rw [lk_false _ _ _ hn.1] at ha
+  have ham := getLastD_mem L 0
+  have han : L.getLastD 0 ≠ n := by
+    rcases ham with e | e
+    · rw [e]; exact Ne.symm hn.1
+    · intro c
+      have := (List.nodup_append.1 hl.nodup).2.2 _ e n (by simp)
+      exact this c
+  have has : L.getLastD 0 ≠ 0 → L.getLastD 0 < h.size := by
+    intro c
+    rcases ham with e | e
+    · exact absurd e c
+    · exact (hl.mem _ (List.mem_append_left _ e)).2
+  have hf := pop_facts h l n (L.getLastD 0) hlast hn.1 hn.2 ha.symm han has
+  have F : RemFacts h l (pop h l).1 (pop h l).2.1 (L.getLastD 0) 0 n :=
+    ⟨Nat.le_of_eq hf.1.symm, hf.2.2.1, hf.2.2.2.1, hf.2.2.2.2.1, hf.2.2.2.2.2⟩
+  refine ⟨?_, hf.2.1⟩
+  rcases List.eq_nil_or_concat L with e | ⟨L', a, e⟩
+  · subst e
+    exact isList_rem_front (R := []) hl F (hl.next (L := []) (R := [])).symm
+  · rw [List.concat_eq_append] at e
+    subst e
+    have hb := (hl.next (L := L' ++ [a]) (R := [])).symm
+    have hl' : IsList h l (L' ++ a :: n :: []) := by simpa using hl
+    have F' : RemFacts h l (pop h l).1 (pop h l).2.1 a 0 n := by simpa using F
+    exact isList_rem_mid (R := []) hl' F' hb
+
+
+theorem IsList.prev_side {h l L x R} (hl : IsList h l (L ++ x :: R)) :
+    L.getLastD 0 ≠ x ∧ (L.getLastD 0 ≠ 0 → L.getLastD 0 < h.size) := by
+  have hx := hl.mem x (by simp)
+  rcases getLastD_mem L 0 with e | e
+  · exact ⟨by rw [e]; exact Ne.symm hx.1, fun c => absurd e c⟩
+  · exact ⟨fun c => (List.nodup_append.1 hl.nodup).2.2 _ e x List.mem_cons_self c,
+      fun _ => (hl.mem _ (List.mem_append_left _ e)).2⟩
+
+theorem IsList.next_side {h l L x R} (hl : IsList h l (L ++ x :: R)) :
+    R.headD 0 ≠ x ∧ (R.headD 0 ≠ 0 → R.headD 0 < h.size) := by
+  have hx := hl.mem x (by simp)
+  rcases headD_mem R 0 with e | e
+  · exact ⟨by rw [e]; exact Ne.symm hx.1, fun c => absurd e c⟩
+  · exact ⟨fun c => (List.nodup_cons.1 (List.nodup_append.1 hl.nodup).2.1).1 (c ▸ e),
+      fun _ => (hl.mem _ (List.mem_append_right _ (List.mem_cons_of_mem _ e))).2⟩
+
+/-- `unlink(n)` of a member: textbook removal, and the node's links are cleared -/
+theorem unlink_erase {h l L n R} (hl : IsList h l (L ++ n :: R)) :
+    IsList (unlink h l n).1 (unlink h l n).2 (L ++ R) ∧
+    (nd (unlink h l n).1 n).prev = 0 ∧ (nd (unlink h l n).1 n).next = 0 := by
+  have hn := hl.mem n (by simp)
+  have ha : lk h l false n = L.getLastD 0 := hl.prev
+  have hb : lk h l true n = R.headD 0 := hl.next
+  have hb' := hb
+  rw [lk_false _ _ _ hn.1] at ha
+  rw [lk_true _ _ _ hn.1] at hb
+  have hf := unlink_facts h l n (L.getLastD 0) (R.headD 0) hn.1 hn.2 ha.symm hb.symm hl.prev_side.1 hl.next_side.1
+    hl.prev_side.2 hl.next_side.2
+  have F : RemFacts h l (unlink h l n).1 (unlink h l n).2 (L.getLastD 0) (R.headD 0) n :=
+    ⟨Nat.le_of_eq hf.1.symm, hf.2.1, hf.2.2.1, hf.2.2.2.1, hf.2.2.2.2.1⟩
+  refine ⟨?_, hf.2.2.2.2.2⟩
+  rcases List.eq_nil_or_concat L with e | ⟨L', a, e⟩
+  · subst e
+    exact isList_rem_front hl F hb'.symm
+  · rw [List.concat_eq_append] at e
+    subst e
+    have hl' : IsList h l (L' ++ a :: n :: R) := by simpa using hl
+    have F' : RemFacts h l (unlink h l n).1 (unlink h l n).2 a (R.headD 0) n := by simpa using F
+    have := isList_rem_mid hl' F' hb'.symm
+    simpa using this
+
+/-- `insert_before(ref, n)` -/
+theorem insertNode_before {h l L ref R n} (hl : IsList h l (L ++ ref :: R)) (hn0 : n ≠ 0) (hns : n < h.size)
+    (hnx : n ∉ L ++ ref :: R) :
+    IsList (insertNode h l ref n false).1 (insertNode h l ref n false).2 (L ++ n :: ref :: R) := by
+  have hr := hl.mem ref (by simp)
+  have ha : lk h l false ref = L.getLastD 0 := hl.prev
+  have ham : L.getLastD 0 = 0 ∨ L.getLastD 0 ∈ L ++ ref :: R := by
+    rcases getLastD_mem L 0 with e | e
+    · exact Or.inl e
+    · exact Or.inr (List.mem_append_left _ e)
+  have hnb := hl.nbr _ ham n hn0 hnx
+  have hf := insertNode_facts h l ref n false (L.getLastD 0) hr.1 hr.2 hn0 hns (fun c => hnx (by simp [c]))
+    ha.symm hnb.1 hl.prev_side.1 hnb.2
+  have F : InsFacts h l (insertNode h l ref n false).1 (insertNode h l ref n false).2 (L.getLastD 0) ref n :=
+    ⟨Nat.le_of_eq hf.1.symm, hf.2.2.2.1, hf.2.2.2.2.1, hf.2.1, hf.2.2.1, hf.2.2.2.2.2.2, hf.2.2.2.2.2.1⟩
+  rcases List.eq_nil_or_concat L with e | ⟨L', a, e⟩
+  · subst e
+    have hfirst : l.first = ref := hl.first
+    exact isList_ins_front hl F hfirst.symm hn0 hns hnx
+  · rw [List.concat_eq_append] at e
+    subst e
+    have hl' : IsList h l (L' ++ a :: ref :: R) := by simpa using hl
+    have F' : InsFacts h l (insertNode h l ref n false).1 (insertNode h l ref n false).2 a ref n := by simpa using F
+    have hnx' : n ∉ L' ++ a :: ref :: R := by simpa using hnx
+    have := isList_ins_mid hl' F' (hl'.next).symm hn0 hns hnx'
+    simpa using this
+
+
+/-! ### non-vacuity: a concrete heap with nodes 1,2,3 (values 10,20,30); build [2,1,3] by append 1, insert_before 1 2,
+insert_after 1 3, then unlink 1 and pop -/
+def h0 : Heap := #[{}, { val := 10 }, { val := 20 }, { val := 30 }]
+def s1 := addNode h0 {} 1 true
+def s2 := insertNode s1.1 s1.2 1 2 false
+def s3 := insertNode s2.1 s2.2 1 3 true
+def s4 := unlink s3.1 s3.2 1
+
+example : IsList s1.1 s1.2 ([] ++ [1]) :=
+  addNode_append (isList_empty h0) (by decide) (by decide) (by decide) (by decide)
+example : IsList s2.1 s2.2 ([] ++ 2 :: 1 :: []) :=
+  insertNode_before (L := []) (R := [])
+    (addNode_append (isList_empty h0) (by decide) (by decide) (by decide) (by decide)) (by decide) (by decide)
+    (by decide)
+example : walk 3 s3.1 s3.2.first true = [20, 10, 30] ∧ walk 3 s3.1 s3.2.last false = [30, 10, 20] := by decide
+example : walk 3 s4.1 s4.2.first true = [20, 30] ∧ (nd s4.1 1).prev = 0 ∧ (nd s4.1 1).next = 0 := by decide
+example : (pop s4.1 s4.2).2.2 = 3 ∧ walk 3 (pop s4.1 s4.2).1 (pop s4.1 s4.2).2.1.first true = [20] := by decide
 
 end AsmjitVerif.ListPool2
